@@ -104,7 +104,7 @@ fn steps(s: &mut Src, w: &StepW, len: (usize, usize), in_future: bool, depth: us
 fn op(s: &mut Src, p: &Profile, w: &OpW) -> Op {
     let ws = [
         w.desync, w.sync, w.trysync, w.futdesync, w.futsync, w.after, w.await_, w.syncwait, w.pollonce, w.dropfut, w.detach, w.release, w.opengate, w.rewake, w.waitfor, w.yield_, w.suspend, w.awaitsuspend, w.resume, w.dropresumer, w.pipein, w.pipe,
-        w.consume, w.droppipe, w.awaitinline, w.consumeinline, w.setdepth,
+        w.consume, w.droppipe, w.awaitinline, w.consumeinline, w.setdepth, w.awaitjoin,
     ];
     let k = s.weighted(&ws);
     let pipe_body = |s: &mut Src| -> Vec<Step> {
@@ -145,7 +145,8 @@ fn op(s: &mut Src, p: &Profile, w: &OpW) -> Op {
         23 => Op::DropPipe { slot: s.u8() },
         24 => Op::AwaitInline { slot: s.u8() },
         25 => Op::ConsumeInline { slot: s.u8(), drop_on_wake: s.pct(40) },
-        _ => Op::SetDepth { slot: s.u8(), depth: s.u8() },
+        26 => Op::SetDepth { slot: s.u8(), depth: s.u8() },
+        _ => Op::AwaitJoin { a: s.u8(), b: s.u8() },
     }
 }
 
